@@ -108,23 +108,45 @@ package bluemonday
 //@   sets sanEl = elementName
 //@   sets sanRes = result
 //@   ensures[C02] attrsGood(p, elementName, result)
+//@   ensures[C03] p.requireParseableURLs ==> urlsOK(p, elementName, result)
 //@   loop 1 "for _, htmlAttr := range attrs"
 //@     invariant[C02] attrsAdm(p, elementName, cleanAttrs)
 //@   loop 4 "for _, htmlAttr := range cleanAttrs"
 //@     invariant[C02] attrsAdm(p, elementName, cleanAttrs)
 //@     invariant[C02] attrsGood(p, elementName, tmpAttrs)
+//@     invariant[C03] urlsOK(p, elementName, tmpAttrs)
 //@     invariant forall i int :: 0 <= i && i < len(cleanAttrs) ==> cleanAttrs[i] == pre(cleanAttrs[i])
 //@   loop 6 "for _, htmlAttr := range cleanAttrs"
 //@     invariant[C02] attrsGood(p, elementName, cleanAttrs)
 //@     invariant[C02] attrsGood(p, elementName, tmpAttrs)
+//@     invariant[C03] p.requireParseableURLs ==> urlsOK(p, elementName, cleanAttrs)
+//@     invariant[C03] p.requireParseableURLs ==> urlsOK(p, elementName, tmpAttrs)
 //@     invariant forall i int :: 0 <= i && i < len(cleanAttrs) ==> cleanAttrs[i] == pre(cleanAttrs[i])
 //@   loop 7 "for _, htmlAttr := range cleanAttrs"
 //@     invariant[C02] attrsGood(p, elementName, cleanAttrs)
 //@     invariant[C02] attrsGood(p, elementName, tmpAttrs)
+//@     invariant[C03] p.requireParseableURLs ==> urlsOK(p, elementName, cleanAttrs)
+//@     invariant[C03] p.requireParseableURLs ==> urlsOK(p, elementName, tmpAttrs)
 //@     invariant forall i int :: 0 <= i && i < len(cleanAttrs) ==> cleanAttrs[i] == pre(cleanAttrs[i])
 //@   loop 8 "for i, htmlAttr := range cleanAttrs"
 //@     invariant[C02] attrsGood(p, elementName, cleanAttrs)
+//@     invariant[C03] p.requireParseableURLs ==> urlsOK(p, elementName, cleanAttrs)
 //@   loop 9 "for i, htmlAttr := range cleanAttrs"
 //@     invariant[C02] attrsGood(p, elementName, cleanAttrs)
+//@     invariant[C03] p.requireParseableURLs ==> urlsOK(p, elementName, cleanAttrs)
 //@   loop 10 "for _, val := range strings.Fields(htmlAttr.Val)"
 //@     invariant[C02] attrsGood(p, elementName, cleanAttrs)
+//@     invariant[C03] p.requireParseableURLs ==> urlsOK(p, elementName, cleanAttrs)
+
+//@ func (*bluemonday.Policy).validURL
+//@   requires wfp(p) && p.initialized
+//@   modifies nothing
+//@   ensures !p.requireParseableURLs ==> result1 && result0 == rawurl
+//@   ensures[C03] p.requireParseableURLs && result1 ==> urlAccepted(p, result0)
+//@   ensures p.requireParseableURLs && result1 ==> reparses(result0)
+//@   ensures[C03] p.requireParseableURLs && result1 && !strings.HasPrefix(strings.TrimSpace(rawurl), "data:") ==> urlAcceptedNoWS(p, result0)
+//@   ensures[C03] p.requireParseableURLs && result1 && strings.HasPrefix(strings.TrimSpace(rawurl), "data:") ==> urlAcceptedNoWS(p, result0)
+
+//@ func bluemonday.linkable
+//@   modifies nothing
+//@   ensures result <==> (elementName == "a" || elementName == "area" || elementName == "base" || elementName == "link" || elementName == "blockquote" || elementName == "del" || elementName == "ins" || elementName == "q" || elementName == "audio" || elementName == "embed" || elementName == "iframe" || elementName == "img" || elementName == "input" || elementName == "script" || elementName == "track" || elementName == "video")
